@@ -12,12 +12,15 @@ package main
 import (
 	"encoding/json"
 	"fmt"
+	"regexp"
+	"path/filepath"
 	"os"
 	"strings"
 	"time"
 
 	"github.com/alephium/wormhole-fork/node/verifh/alphh"
 	"github.com/alephium/wormhole-fork/node/verifh/ev"
+	"github.com/alephium/wormhole-fork/node/verifh/wiring"
 )
 
 var r *ev.Run
@@ -176,6 +179,27 @@ func run(sc scenario, steps []alphh.Step, check bool) (fwd []string) {
 	return fwd
 }
 
+// productionWiring: the scenarios construct the watcher with isMainnet = true exactly for the mainnet scenarios. In
+// the node that argument is bound in cmd/guardiand/node.go: whatever spelling of --network loads the mainnet
+// contracts must also set isMainnet (read with go/ast; the two expressions must be functions of the same value).
+func productionWiring() {
+	nodeGo := filepath.Join(r.Repo, "node/cmd/guardiand/node.go")
+	isMain, err := wiring.ArgFor(nodeGo, "alephium.NewAlephiumWatcher", filepath.Join(r.Repo, "node/pkg/alephium/watcher.go"), "NewAlephiumWatcher", "isMainnet")
+	cfgArg, err2 := wiring.CallArgs(nodeGo, "common.ReadConfigsByNetwork")
+	if err != nil || err2 != nil || len(isMain) != 1 || len(cfgArg) != 1 || len(cfgArg[0]) != 1 {
+		ev.Broken("node.go wiring of the Alephium watcher: %v %v", err, err2)
+	}
+	m := regexp.MustCompile(`^(.+) == "mainnet"$`).FindStringSubmatch(isMain[0])
+	r.Set("alephium_isMainnet_argument", isMain[0])
+	r.Set("config_network_argument", cfgArg[0][0])
+	if m == nil {
+		ev.Broken("node.go: isMainnet argument %q outside the recognised wiring", isMain[0])
+	}
+	if m[1] != cfgArg[0][0] {
+		r.Violation("production wiring: the network whose contracts are loaded and the mainnet confirmation floor are decided by different values", fmt.Sprintf("configs are loaded for %s, isMainnet is %s", cfgArg[0][0], isMain[0]), map[string]string{"configs": cfgArg[0][0], "isMainnet": isMain[0]})
+	}
+}
+
 func viol(sc scenario, steps []alphh.Step, key, what string) {
 	var pretty []string
 	for _, s := range steps {
@@ -204,6 +228,7 @@ func main() {
 	si, sn, worker := ev.Shard()
 	if !worker {
 		r.Set("base_scenarios", len(bs))
+		productionWiring()
 		r.Fork(0, nil, r.CrashViolation)
 		r.Set("rule", "states/transitions count executions of the real watcher and stimuli applied; histories are not merged (the watcher's fromIndex / pending set are local to its goroutines): every history within the edit bound around every base scenario is run in full")
 		r.Assume("one stimulus at a time: interleavings finer than a whole reaction of the watcher to one tick / request are not explored")
